@@ -99,7 +99,11 @@ where
         (Some(ssl_config), ws_config) => {
             let cert = CertificateDer::from_pem_file(ssl_config.certificate_file.as_str())?;
             let key = PrivateKeyDer::from_pem_file(ssl_config.key_file.as_str())?;
-            let tls_config = rustls::ServerConfig::builder().with_no_client_auth().with_single_cert(vec![cert], key)?;
+            let mut tls_config = rustls::ServerConfig::builder().with_no_client_auth().with_single_cert(vec![cert], key)?;
+            // no session tickets: the client never resumes a session, and a ticket is written only with the server's first
+            // read - when it reaches a client that has already sent everything and closed, the client's kernel answers
+            // with a reset and throws away what it had not transmitted yet (the end of an upload was lost)
+            tls_config.send_tls13_tickets = 0;
             let tls_acceptor = TlsAcceptor::from(Arc::new(tls_config));
             loop {
                 let inbound = match listener.accept().await {
